@@ -98,6 +98,8 @@ pub enum OpKind {
     LazyExec { script: Vec<SOp>, mutable: bool },
     // ---- change sets
     ChangeSet { pairs: Vec<(H, i64)>, consume: CsConsume },
+    /// `entry_inner(2^24).or_insert(value)`: the mask update unwinds after the raw insert
+    EntryHuge { slot: u8, payload: i64 },
     /// the wrapped handle-taking op (insert via the generic trait, get via a read storage,
     /// get_mut, get_mut_or_default) goes through the by-reference generic-storage overloads
     ByRef(Box<OpKind>),
